@@ -142,6 +142,18 @@ def check(trace, S, cfg):
                 viols.append(('atom-locations-sum-wrong', f'sum={sum(loc.values())} expected={frac_at_sites}'))
         except Exception as e:  # noqa: BLE001
             viols.append((f'occupancy-raise-{type(e).__name__}', str(e)))
+    # --- occupancy of the parts of a split (each part: fraction of ITS frames)
+    if not hop.has_double_occupancy(trace) and len(rows) >= 2 and L >= 3:
+        try:
+            for k, part in enumerate(tr.split(2)):
+                ps = np.asarray(part.states)
+                e_occ = [float(np.sum(ps == i)) / len(ps) for i in range(S)]
+                g_occ = [float(x.species.num_atoms) for x in part.occupancy()]
+                if any(abs(a - b) > 1e-12 for a, b in zip(g_occ, e_occ)):
+                    viols.append(('occupancy-of-split-part-wrong', f'part {k} of 2 ({len(ps)} frames): got={g_occ} expected={e_occ}'))
+                    break
+        except Exception as e:  # noqa: BLE001
+            viols.append((f'split-occupancy-raise-{type(e).__name__}', str(e)))
     # --- jumps
     D = hop.default_jumps(trace)
     try:
@@ -205,6 +217,20 @@ def check(trace, S, cfg):
             e_act = -math.log(eff / nu) * KB * 400.0 / E_CHARGE
             if not close(G.edges[a, b]['e_act'], e_act, 1e-9):
                 viols.append(('graph-activation-energy-wrong', f'edge {(a, b)} got={G.edges[a, b]["e_act"]} expected={e_act}'))
+        # thresholds, then the default call again on the same object (call-order independence)
+        acts = sorted(G.edges[e]['e_act'] for e in G.edges)
+        if len(acts) >= 2 and acts[-1] - acts[0] > 1e-9:
+            cut = (acts[0] + acts[-1]) / 2
+            lo = {e for e in exp_edges if G.edges[e]['e_act'] <= cut}
+            G1 = j.to_graph(max_e_act=cut)
+            if set(G1.edges) != lo:
+                viols.append(('graph-threshold-edges-wrong', f'max_e_act={cut}: got={sorted(G1.edges)} expected={sorted(lo)}'))
+            G2 = j.to_graph(min_e_act=cut)
+            if set(G2.edges) != exp_edges - lo and not any(abs(G.edges[e]['e_act'] - cut) < 1e-12 for e in exp_edges):
+                viols.append(('graph-threshold-edges-wrong', f'min_e_act={cut}: got={sorted(G2.edges)} expected={sorted(exp_edges - lo)}'))
+            G3 = j.to_graph()
+            if set(G3.edges) != exp_edges:
+                viols.append(('graph-edges-wrong-after-thresholded-call', f'got={sorted(G3.edges)} expected={sorted(exp_edges)}'))
     except StopIteration:
         pass
     except Exception as e:  # noqa: BLE001
